@@ -222,7 +222,11 @@ class C11(ConnProp):
             goods = b''.join(b'GET /c0/g%d HTTP/1.1\r\n\r\n' % j for j in range(k))
             bad = rng.choice([b'GET /c0/bad HTTP/9.9\r\n\r\n', b'PUT /c0/bad HTTP/1.1\r\nContent-Length: x\r\n\r\n',
                               b'BREW /c0/bad HTTP/1.1\r\n\r\n', b'GET  /c0/bad HTTP/1.1\r\n\r\n',
-                              b'PUT /c0/bad HTTP/1.1\r\nContent-Length: 99999999\r\n\r\n'])
+                              b'PUT /c0/bad HTTP/1.1\r\nContent-Length: 99999999\r\n\r\n',
+                              b'PUT /c0/bad HTTP/1.1\r\nContent-Length: ' + b'9' * 600 + b'\r\n\r\n'])
+            if (k == 0 or split) and rng.random() < 0.25:
+                # a header line of exactly 1024 bytes without line end (arriving alone): rejected when the window is full of it; the 400 that echoes it is longer than 1 KiB
+                bad = b'GET /c0/bad HTTP/1.1\r\n' + (b'X-L: ' + b'v' * 2000)[:1024]
             ops = [[0, 0], [11, 4]]
             # sometimes the 400 is sent by flush_outgoing_writes (one poll reads the malformed request, then the flush)
             after_bad = [[6], [8]] if rng.random() < 0.4 else [[11, 6]]
